@@ -1,7 +1,7 @@
 PROP = dict(
     # the zone string itod returns aliases a pooled buffer: the model's value semantics needs "sockaddr.go never Puts"
     gens=[dict(tool="gensockpool", out="GenSockPool.v", args=["{repo}"])],
-    drivers=[dict(cmd="drv-sockaddr", family="sockaddr")],
+    drivers=[dict(cmd="drv-sockaddr", family="sockaddr", netns=True)],
     rule="conversion part: 10^4 seeded random IPv4 / IPv6 / v4-in-v6 / nil addresses x zone pool (interface names and "
          "indices of this machine, free indices incl. 9999, 16777214, >= 0xFFFFFF, malformed zones) x boundary and random "
          "ports, there-and-back in both directions; every port 0..65535; itod 0..19999 + decimal boundaries + random "
